@@ -173,6 +173,29 @@ impl Prop for C08 {
             case.set("min_cfg", 0);
             return case;
         }
+        if r.chance(60) {
+            // 'vkey-macro' population: a plain macro on a virtual key, started by the RELEASE of a
+            // key (no physical press starts it), right after a release-cancel macro - possibly one
+            // that also cancels on press - was cancelled by releasing its key; then a plain key is
+            // typed while the virtual key's macro runs. That macro is an ordinary one: it outputs its
+            // whole list.
+            let v = *r.pick(&["macro-release-cancel-and-cancel-on-press", "macro-release-cancel-and-cancel-on-press", "macro-release-cancel"]);
+            let mut case = Case { prop: "C08".into(), seed, ..Default::default() };
+            case.cfg = format!("(defsrc a b c)\n(defvirtualkeys vm (macro p 20 q 20 r))\n(deflayer l0 ({v} x 300 y) (on-release tap-vkey vm) 1)\n");
+            let (a, b, c) = (oscode_of("a"), oscode_of("b"), oscode_of("c"));
+            let mut ops = vec![Op::Gap(2), Op::Press(b), Op::Gap(r.range(2, 10) as u32), Op::Press(a), Op::Gap(r.range(10, 60) as u32), Op::Release(a), Op::Gap(r.range(3, 30) as u32), Op::Release(b)];
+            ops.push(Op::Gap(r.range(4, 35) as u32));
+            ops.push(Op::Press(c));
+            ops.push(Op::Gap(5));
+            ops.push(Op::Release(c));
+            ops.push(Op::Gap(300));
+            case.ops = ops;
+            case.set("pop", "vkey-macro");
+            case.set("min_ops", 0);
+            case.set("min_gaps", 0);
+            case.set("min_cfg", 0);
+            return case;
+        }
         if r.chance(80) {
             // 'repeat-pair' population: two or three plain macro-repeat keys held at the same time
             // and released in any order: each macro stops restarting once ITS key is up
@@ -365,6 +388,18 @@ impl Prop for C08 {
             }
             if want_sample {
                 o.sample = Some(sample_json(case, &outs, json!({"pop": pop})));
+            }
+            return o;
+        }
+        if pop == "vkey-macro" {
+            let d = st.down_set();
+            if !d.is_empty() {
+                o.set_fail("C08:keys-down-after-macro-end", format!("still down: {:?}: {}", d.keys, outs_short(&outs)), vec![]);
+                return o;
+            }
+            let typed: Vec<&str> = outs.iter().filter(|e| e.kind == OutKind::Press && matches!(e.key.as_str(), "P" | "Q" | "R")).map(|e| e.key.as_str()).collect();
+            if typed != ["P", "Q", "R"] {
+                o.set_fail("C08:macro-output-differs-from-its-list", format!("the virtual key's macro (p 20 q 20 r) typed {typed:?}: ops {} :: {}", ops_short(&case.ops), outs_short(&outs)), vec![]);
             }
             return o;
         }
